@@ -31,6 +31,9 @@ ChunkSizeOK(tr) == tr.mode \in {"serial", "real"} \/
 Step(tr, s, ev) ==
   LET w == ev.w  c == s.cur[w] IN
   IF s.stopped THEN <<s, "C20:evaluation-continued-after-the-interrupt">>
+  \* a sub-cube handled by a thread that is not a worker of the pool (w = 0: the caller's own thread) during a pooled
+  \* evaluation: not a behaviour of the model
+  ELSE IF tr.mode = "pool" /\ w = 0 THEN <<s, "X00:event-not-allowed-by-the-pool-model">>
   ELSE IF ev.e = "take" THEN
        IF tr.mode = "serial" \/ c.phase # "idle" \/ ev.t \in s.claimed \/ (\E d \in 1..(ev.t - 1) : d \notin s.claimed)
           \/ ev.t > NChunks(tr)
@@ -87,8 +90,10 @@ TNext ==
      /\ LET r == Step(tr, st, tr.events[l + 1]) IN st' = r[1] /\ err' = r[2]
      /\ l' = l + 1 /\ UNCHANGED i
      \* an event the model cannot place ends the replay; what the caller saw is judged all the same
+     \* (a callback that has raised by now is a fact whatever follows: the evaluation must not return)
      /\ (err' # "" => /\ PrintT(<<"V", tr.tid, err'>>)
-                      /\ \A c \in FinalOutputs(tr) : PrintT(<<"V", tr.tid, c>>))
+                      /\ \A c \in FinalOutputs(tr) \cup (IF st'.failed # <<>> /\ tr.outcome \notin {"raised", "hung"}
+                                                           THEN {"C20:interrupt-not-propagated"} ELSE {}) : PrintT(<<"V", tr.tid, c>>))
   \/ /\ err = "" /\ l = Len(tr.events) /\ l' = l + 1 /\ UNCHANGED <<i, st>>
      /\ LET cs == Final(tr, st) IN
         /\ err' = IF cs = {} THEN "done" ELSE "final"
